@@ -5,8 +5,13 @@
 (* enumerates EVERY call sequence of length <= MaxLen over                   *)
 (*   {enc, dec} x {fresh block, previous output, repeat the previous input} *)
 (* and prints each as a plan; the driver replays it on one real object.     *)
+(* Second family ("craft"): blocks computed by the specification so that the *)
+(* input word of the round transform T in ONE chosen round is a special      *)
+(* value (00000000, FFFFFFFF, a word with equal bytes): the state before     *)
+(* that round is chosen and run BACKWARDS through the earlier rounds to the   *)
+(* input block.  Random blocks reach such a word with probability 2^-27.      *)
 (***************************************************************************)
-EXTENDS Naturals, Sequences, TLC, Json
+EXTENDS SM4, Sequences, Json
 CONSTANT MaxLen
 VARIABLE seq
 Ops == {"enc", "dec"}
@@ -16,5 +21,25 @@ Call(o, s) == /\ Len(seq) < MaxLen
               /\ (Len(seq) = 0 => s = "fresh")
               /\ seq' = Append(seq, <<o, s>>)
 Next == \E o \in Ops, s \in Srcs : Call(o, s)
+\* ---- crafted blocks ----
+CraftKeys == << K0, <<0,0,0,0,124,0,0,0,0,0,0,0,0,0,0,0>>, [j \in 1..16 |-> (j * 37 + 11) % 256] >>
+Targets == << <<0,0>>, <<65535,65535>>, <<\hd6d6,\hd6d6>>, <<\h0101,\h0101>> >>
+RkAt(rk, j, dec) == rk[IF dec THEN 32 - j ELSE j + 1]
+\* state before round i with T-input = target:  D = B ^ C ^ rk_i ^ target
+StateAt(rk, i, dec, tg) == << rk[((i + 17) % 32) + 1], rk[((i + 5) % 32) + 1], rk[((i + 11) % 32) + 1],
+                             X4(rk[((i + 5) % 32) + 1], rk[((i + 11) % 32) + 1], RkAt(rk, i, dec), tg) >>
+RECURSIVE Back(_, _, _, _)
+\* st = state before round j; returns the state before round 0
+Back(st, rk, j, dec) == IF j = 0 THEN st
+                        ELSE Back(<< WXor(st[4], TE(X4(st[1], st[2], st[3], RkAt(rk, j - 1, dec)))), st[1], st[2], st[3] >>, rk, j - 1, dec)
+InBytes(x) == WBytes(x[1]) \o WBytes(x[2]) \o WBytes(x[3]) \o WBytes(x[4])
+CraftRec(key, rk, i, dec, tg) == [kind |-> "craft", key |-> key, block |-> InBytes(Back(StateAt(rk, i, dec, tg), rk, i, dec)), dir |-> IF dec THEN "dec" ELSE "enc", round |-> i]
+\* self-check of the construction: running forward to round i gives the chosen T-input
+RECURSIVE Fwd(_, _, _, _, _)
+Fwd(x, rk, j, to, dec) == IF j = to THEN x ELSE Fwd(<<x[2], x[3], x[4], WXor(x[1], TE(X4(x[2], x[3], x[4], RkAt(rk, j, dec))))>>, rk, j + 1, to, dec)
+CraftOK(key, rk, i, dec, tg) == LET st == Fwd(BlockWords(CraftRec(key, rk, i, dec, tg).block), rk, 0, i, dec) IN X4(st[2], st[3], st[4], RkAt(rk, i, dec)) = tg
+ASSUME \A kq \in 1..Len(CraftKeys), i \in 0..31, dec \in BOOLEAN, tq \in 1..Len(Targets) :
+          (kq = 1 \/ tq = 1) => /\ CraftOK(CraftKeys[kq], KeySchedule(CraftKeys[kq]), i, dec, Targets[tq])
+                                /\ PrintT(<<"PLAN", ToJson(CraftRec(CraftKeys[kq], KeySchedule(CraftKeys[kq]), i, dec, Targets[tq]))>>)
 Emit == seq # <<>> => PrintT(<<"PLAN", ToJson([seq |-> seq])>>)
 =============================================================================
